@@ -24,6 +24,7 @@ DOC = {
  "C15.R3": "rate-limited router: inner route only on check() true; false returns RateLimited(job); bump() only on the Handled edge",
  "C15.R4": "both RateLimited arms in the factory record the stat, call the handler with RateLimited and reject the job",
  "C15.R5": "hooks: on_factory_started only from post_start, on_factory_draining only from the drain handler after the Draining store, on_factory_stopped only from post_stop; is_drained = all workers available and queue empty; stop only when drained",
+ "C15.R7": "pool <-> actor index pairing: every removal from the worker pool is followed on every (value-present) path by the removal of that worker's actor id from the actor->wid index, every pool insertion by an index insertion",
  "C15.R6": "dispatch while draining discards with Shutdown and rejects; resize: 0 returns early, new size = min(MAX, requested), shrink marks busy workers draining",
 }
 
@@ -164,6 +165,29 @@ def r2(run, db):
             if s["k"] == "assign" and s["rv"]["k"] == "bin" and s["rv"]["op"].startswith("Mul"):
                 run.fail("mul-plain:%s" % f.id.split("::")[-1], "tokens are computed with a plain `*` (overflow panics in debug / wraps in release); use saturating_mul", f.where(s.get("l")))
     run.anchor("balance stores", nst, 4)
+    # a due refresh always moves the deadline: otherwise the same elapsed interval is credited again later (C15-4)
+    rf = [f for f in core if f.id.endswith("::refresh")]
+    for f in rf:
+        D = fields(db).lb_deadline
+        stores = [site for site, s in f.stmts() if s["k"] == "assign" and D in [proj_field_name(e) for e in s["lhs"][1] if e.startswith("f:")]]
+        due = []
+        for c in f.calls():
+            m = re.search(r"cmp::PartialOrd::(lt|le|gt|ge)$", c.callee or "")
+            if not m or "Instant" not in (c.self_ty or "") + " ".join(c.gargs):
+                continue
+            a_now = any(r["k"] == "arg" and r["local"] == 2 for r in f.origins(c.args[0]))
+            b_now = any(r["k"] == "arg" and r["local"] == 2 for r in f.origins(c.args[1]))
+            if a_now == b_now:
+                continue
+            op = m.group(1)
+            if b_now:
+                op = {"lt": "gt", "le": "ge", "gt": "lt", "ge": "le"}[op]
+            # normalised: now <op> deadline ; due means now >= deadline
+            due.append(false_edge(f, c) if op in ("lt", "le") else true_edge(f, c))
+        run.check(len(due) == 1 and due[0] is not None and len(stores) >= 1, "refresh|due-test", "refresh compares `now` with the deadline once", "refresh: %d now/deadline comparisons, %d deadline stores" % (len(due), len(stores)), f.where())
+        if len(due) == 1 and due[0] is not None and stores:
+            run.check(all_paths_from_edge_pass(f, due[0], stores), "refresh|due->deadline-advanced", "whenever the deadline has passed, every path through refresh stores a new deadline",
+                      "refresh can return on the due edge (now >= deadline) without moving the deadline: the intervals that elapsed meanwhile are credited by a later call, on top of a bucket that was meanwhile spent (more than balance + refill per interval admitted)", f.where())
     chk = [f for f in core if f.id.endswith("::check")]
     for f in chk:
         rf = [c for c in f.calls() if c.callee and c.callee.endswith("::refresh")]
@@ -278,6 +302,59 @@ def r5(run, db):
         run.check(len(idc) >= 1 and len(stp) >= 1 and all(any(true_edge(f, i) and f.edge_dominates(true_edge(f, i), s.site) for i in idc) for s in stp), "handle|stop-if-drained", "the factory stops itself only on the true edge of is_drained()", "factory stop not guarded by is_drained()", f.where())
 
 
+def _fnames(fn, op):
+    thr = lambda c: 0 if c.matches(r"Deref>::deref$|DerefMut>::deref_mut$|Deref::deref$|DerefMut::deref_mut$|OccupiedEntry::<'a, K, V, A>::get_mut$|OccupiedEntry::<'a, K, V, A>::get$") else None
+    out = []
+    for r in fn.origins(op, through=thr):
+        for e in r.get("proj", []) + r.get("trail", []):
+            n = proj_field_name(e) if e.startswith("f:") else None
+            if n:
+                out.append(n)
+    return out
+
+
+def r7(run, db):
+    """pool <-> worker_by_actor pairing.  The factory resolves supervision events of workers through the actor->wid index; an
+    entry that outlives its pool slot makes the late termination event of a retired worker hit whatever worker occupies that
+    wid now (C15-3: the healthy replacement is replaced again and left running untracked, so the pool never converges)."""
+    fields(db).fs_pool, fields(db).fs_by_actor      # anchors: both maps exist in FactoryState (unique by type)
+    def is_map(fn, op, rx):
+        p = op_place(op)
+        return bool(p) and re.search(rx, fn.local_ty(p[0]) or "") is not None
+    PRX = r"HashMap<usize, ractor::factory::worker::WorkerProperties<"
+    BRX = r"HashMap<ractor::actor::actor_id::ActorId, usize>"
+    nrm = nin = 0
+    for f in db.crate_fns("ractor"):
+        if not (f.file or "").endswith("factory/factoryimpl.rs") or "::tests::" in f.id:
+            continue
+        calls = f.calls()
+        b_rm = [c.site for c in calls if c.matches(r"HashMap::<K, V, S, A>::remove$") and is_map(f, c.args[0], BRX)]
+        b_in = [c.site for c in calls if c.matches(r"HashMap::<K, V, S, A>::insert$") and is_map(f, c.args[0], BRX)]
+        for c in calls:
+            if c.matches(r"HashMap::<K, V, S, A>::remove$") and is_map(f, c.args[0], PRX):
+                nrm += 1
+                e = nested_variant_edge(f, c, ["Some"])
+                good = e is not None and all_paths_from_edge_pass(f, e, b_rm)
+                run.check(good, "pool-remove->index-remove:%s" % f.id.split("::")[-1].replace("{closure#0}", f.id.split("::")[-2]), "when a worker leaves the pool its actor id leaves the actor->wid index on every path",
+                          "%s removes a worker from the pool but not (on every path) its actor id from the actor->wid index: the retired worker's later termination event resolves to the slot's next occupant" % f.id, c.where())
+            elif c.matches(r"hash_map::OccupiedEntry::<'a, K, V, A>::(remove|remove_entry)$|OccupiedEntry::<'a, K, V, A>::(remove|remove_entry)$"):
+                p = op_place(c.args[0])
+                ty = f.local_ty(p[0]) if p else ""
+                if "WorkerProperties" not in ty:
+                    continue
+                nrm += 1
+                good = c.target is not None and (Site(c.target, 0) in set(b_rm) or f.must_pass(Site(c.target, 0), b_rm))
+                run.check(good, "pool-remove->index-remove:%s" % f.id.split("::")[-1], "when a worker leaves the pool its actor id leaves the actor->wid index on every path",
+                          "%s removes a worker from the pool (entry API) but not, on every path, its actor id from the actor->wid index: the retired worker's later termination event resolves to the slot's next occupant, which is then replaced although healthy" % f.id, c.where())
+            elif c.matches(r"HashMap::<K, V, S, A>::insert$") and is_map(f, c.args[0], PRX):
+                nin += 1
+                good = c.target is not None and f.must_pass(Site(c.target, 0), b_in)
+                run.check(good, "pool-insert->index-insert:%s" % f.id.split("::")[-2], "a worker added to the pool is added to the actor->wid index on every path",
+                          "%s adds a worker to the pool without indexing its actor id: its failure would never be noticed" % f.id, c.where())
+    run.anchor("pool removals", nrm, 2)
+    run.anchor("pool insertions", nin, 2)
+
+
 def c_id(c):
     return c.fn.id
 
@@ -317,4 +394,4 @@ def r6(run, db):
 
 Q = ["dflt"]
 TH = ["dflt", "rc", "atr", "astd"]
-RULES = [{"id": "C15.R%d" % i, "fn": f, "quick": Q, "thorough": TH} for i, f in enumerate([r1, r2, r3, r4, r5, r6], 1)]
+RULES = [{"id": "C15.R%d" % i, "fn": f, "quick": Q, "thorough": TH} for i, f in enumerate([r1, r2, r3, r4, r5, r6, r7], 1)]
